@@ -20,6 +20,10 @@ def run(ctx):
          # (the proxy's close notification reaches the request before the harness sees the connection go: the order of attempts
          # is not judged in this stage, only what the client is told)
          ["the client received an error of the proxy's own making"]),
+        # a pool with one slot empty for half a second (the node is slow to accept the replacement): the host still has a usable
+        # connection and must not be skipped
+        ("half-pool-2x2", ["-random", "1500" if t else "360", "-nodes", "2", "-numconns", "2", "-clients", "3", "-workers", "4", "-round", "180", "-halfpool", "3",
+                           "-okbias", "6", "-nodrops", "-delay", "6"], False),
         ("random-1x2", ["-random", "600" if t else "150", "-nodes", "1", "-numconns", "2", "-clients", "2", "-workers", "2", "-round", "75", "-okbias", "1"], False),
     ]
     rf.run_property(ctx, "C05", plans)
